@@ -507,6 +507,13 @@ def r7_component_writeback(ctx):
                         guards = [txt(tst) for tst, _pol in (hcfg.guards(nd.id) if nd is not None else [])]
                         stores.append((st, guards))
             stores = [(st, gs) for st, gs in stores if any("coerce" in g for g in gs) or not gs]
+            # ... and on nothing about the data's current dtype: "skip coercion when the dtype already matches" compares
+            # dtypes only, which object-backed dtypes (str) satisfy for any content
+            extra = [g for st, gs in stores for g in gs if "coerce" in g and ("dtype" in g or ".check(" in g)]
+            if extra:
+                ctx.ob("R7", f0, f"{f0.short}: coercion is written back whenever schema.coerce is set", False,
+                       f"the write-back is also conditional on `{extra[0][:80]}`: a dtype-only test is true for every object index, so Index(str, coerce=True) "
+                       "leaves non-string labels un-coerced while the checks run on a coerced copy", f0.loc(stores[0][0]))
             ok = bool(stores)
             ctx.ob("R7", f0, f"{f0.short}: coercion is written back into the working object", ok,
                    "; ".join(f"`{txt(st)[:60]}` under {gs or 'no guard'}" for st, gs in stores[:2]) if ok else
